@@ -345,7 +345,7 @@ reg('C03', 'model_checking',
     'after 1, 2, 4, never, condition true/false/time dependent, pre, post, '
     'update_nnps - of a three-equation group followed by a '
     'neighbour-dependent probe group; two-group programs over all '
-    'destination/source wirings of three arrays; sub-groups with their own '
+    'destination/source wirings of three arrays; every deviated group placed between plain groups that use the same arrays and destinations; sub-groups with their own '
     'flags inside eight kinds of parents (plain, pre+post, condition, '
     'update_nnps, iterated, and combinations of those).',
     'Trusted: the reference interpreter (the model of the documented '
